@@ -26,6 +26,10 @@ func genC02(seed uint64, tier string) *plan.Plan {
 	initC09Index()
 	r := rand.New(rand.NewPCG(seed, 0xc02))
 	pl := &plan.Plan{Cfg: map[string]int64{}}
+	if r.IntN(12) == 0 {
+		genTwoExporters(r, pl)
+		return pl
+	}
 	udp := r.IntN(2) == 1
 	if udp {
 		pl.Cfg["proto"] = 1
@@ -120,6 +124,10 @@ func genC02(seed uint64, tier string) *plan.Plan {
 }
 
 func runC02(pl *plan.Plan, out *plan.Outcome) {
+	if cfgOr(pl, "two", 0) == 1 {
+		runTwoExporters(pl, out, func(s *expSession) { s.checkWire("C02") })
+		return
+	}
 	env := newEnv(pl, out, keepLogFlag)
 	var sess *expSession
 	env.Go("app", func() {
